@@ -1,7 +1,8 @@
 // c20_xinc.cpp - property C20: XInclude processing yields the specified merged tree, preserves base URIs, detects loops and
 // reports invalid usage.  Bounded-exhaustive enumeration of inclusion graphs / per-include option products over files in an
 // in-memory VFS (/v/a.xml, /v/s/b.xml, /v/s/t/c.xml, /v/d.xml + text targets); every case is executed by XercesDOMParser
-// (setDoXInclude) and DOMLSParser (fgXercesDoXInclude) under ASan+UBSan and compared with the reference expander of c20_ref.hpp.
+// (setDoXInclude), DOMLSParser (fgXercesDoXInclude) and XIncludeDOMDocumentProcessor (--apis 3, default; --apis 2: parsers only)
+// under ASan+UBSan and compared with the reference expander of c20_ref.hpp.
 //
 // Spaces (--space):
 //   graph   all assignments of a template to each of --files n files (see build_variants); --tset full|mid|small; --rb k = number of
@@ -248,7 +249,7 @@ static std::string case_json(const Case& c) {
 static bool g_strict = false;   // defects space: known defects are reported
 static bool g_leak = false;     // leak space
 static bool g_leak_selftest = false;
-static int g_napi = 2;          // 0 XercesDOMParser, 1 DOMLSParser, 2 XIncludeDOMDocumentProcessor
+static int g_napi = 3;          // 0 XercesDOMParser, 1 DOMLSParser, 2 XIncludeDOMDocumentProcessor
 static const char* API_NAME[] = {"XercesDOMParser", "DOMLSParser", "XIncludeDOMDocumentProcessor"};
 
 static std::vector<std::string> filter_lines(const std::vector<std::string>& in) {
@@ -603,7 +604,7 @@ int main(int argc, char** argv) {
         extra = "\"bounds\":{\"catalogue\":" + std::to_string(O_cat.size()) + ",\"bforms\":" + std::to_string(O_bforms.size()) + ",\"pairs\":" + std::to_string(O_pairs) + "}";
     }
     if (a.has("strict")) g_strict = a.num("strict") != 0;
-    g_napi = (int)a.num("apis", 2);
+    g_napi = (int)a.num("apis", 3);
     if (a.has("open-budget")) g_guard->budget = (uint64_t)a.num("open-budget");
     if (a.has("list-defects")) { for (auto& d : KNOWN_DEFECTS) printf("%s: %s\n", d.id, d.what); return 0; }
     R.fn = run_case;
